@@ -289,8 +289,8 @@ def publicPairToHash160Sec (x y : Int) (comp : Bool) : Except Err Bytes :=
 inductive KeyObj
   /-- an object with a `public_pair()` method (a `Key`); `none` = the method returns `None` -/
   | key (pub : Option (Int × Int))
-  /-- a `Contract` (what `parse.address` returns): `hash160()` may be `None` -/
-  | contract (h160 : Option Bytes)
+  /-- a `Contract` (what `parse.address` returns): `info()["type"]`, and `hash160()`, which may be `None` -/
+  | contract (typ : String) (h160 : Option Bytes)
   /-- `None` (`parse.address` did not recognise the text) -/
   | pyNone
   deriving DecidableEq, Repr
@@ -300,7 +300,10 @@ def pairMatchesKey (pair : Pt) (key : KeyObj) (comp : Bool) : Except Err Bool :=
   match key with
   | .key pub => .ok (pub == pair)
   | .pyNone => .error .attributeError
-  | .contract h =>
+  | .contract typ h =>
+    -- repaired: only the pay-to-pubkey-hash forms of an address stand for a public key
+    if typ ≠ "p2pkh" ∧ typ ≠ "p2pkh_wit" then .ok false
+    else
     match pair with
     | none => .error .attributeError        -- `None.to_bytes`; excluded by the repaired `pair_for_message_hash`
     | some (x, y) => (publicPairToHash160Sec x y comp).map fun ph => h == some ph
